@@ -3,6 +3,7 @@ CONSTANTS
   Threads = {t1, t2, t3}
   Socks = {s1, s2}
   AtomicCheck = FALSE
+  DeadBind = FALSE
   MaxDeliver = 2
 INVARIANT NoStuckLive
 INVARIANT ResultTyped
